@@ -29,7 +29,8 @@ def parseReset (toks : List String) : Option St :=
     else match tok.splitOn ":" with
       | [k, t] => do
         let kb ← bytesOfHex k
-        let tn ← t.toNat?
+        -- a trailing `h` only changes how the harness WRITES the target (localhost:<port>); same listener
+        let tn ← (if t.endsWith "h" then (t.dropEnd 1).toString else t).toNat?
         pure { s with eps := s.eps ++ [⟨kb, tn⟩] }
       | _ => none
 
